@@ -32,6 +32,10 @@ Lemma Forall2_snoc {A B} (R : A -> B -> Prop) (l : list A) (m : list B) x y :
   Forall2 R l m -> R x y -> Forall2 R (l ++ [x]) (m ++ [y]).
 Proof. intros H Hxy. apply Forall2_app; [exact H|constructor; [exact Hxy|constructor]]. Qed.
 
+Lemma Forall2_weaken {A B} (R R' : A -> B -> Prop) (l : list A) (m : list B) :
+  (forall a b, R a b -> R' a b) -> Forall2 R l m -> Forall2 R' l m.
+Proof. intros HR H. induction H; constructor; auto. Qed.
+
 Lemma Forall2_Forall_r {A B} (R : A -> B -> Prop) (P : B -> Prop) (l : list A) (m : list B) :
   (forall a b, R a b -> P b) -> Forall2 R l m -> Forall P m.
 Proof. intros HRP H. induction H; constructor; eauto. Qed.
@@ -358,7 +362,7 @@ Section HeapHist.
     intros [Hg _] H. unfold hghost_inv in *.
     assert (Hmono : forall g', hgen (hh s) <= g' ->
               Forall2 (ginv (fun x => x) g') (hits s) gs).
-    { intros g' Hle. eapply Forall2_impl; [|exact H]. intros it g. apply ginv_mono. exact Hle. }
+    { intros g' Hle. eapply Forall2_weaken; [|exact H]. intros it g. apply ginv_mono. exact Hle. }
     destruct o.
     - destruct (hstep_push s x) as [h' [E [Hg' _]]]. rewrite E. simpl. apply Hmono. lia.
     - destruct (zget (ha (hh s)) 0) as [x|] eqn:E0.
@@ -498,8 +502,14 @@ Section HeapHist.
     assert (Ho' : ho (ha (hh s'))).
     { replace s' with (fst (hstep s o)) by (rewrite Es; reflexivity). apply hstep_ordered. exact Ho. }
     apply IH; [exact Ho'|].
-    destruct o; try (replace s' with (fst (hstep s _)) by (rewrite Es; reflexivity);
-                     rewrite hstep_hh_same by exact I; destruct r; exact Hp).
+    assert (Hsame : match o with HPush _ | HPop => False | _ => True end ->
+                    Permutation (ha (hh s')) (ms_step l o r)).
+    { intros Hk.
+      replace s' with (fst (hstep s o)) by (rewrite Es; reflexivity).
+      rewrite hstep_hh_same by exact Hk.
+      replace (ms_step l o r) with l by (destruct o; try reflexivity; destruct Hk).
+      exact Hp. }
+    destruct o; try (apply Hsame; exact I).
     - destruct (hstep_push s x) as [h' [E [_ [Hp' _]]]]. rewrite E in Es.
       injection Es as <- <-. simpl.
       eapply perm_trans; [apply Permutation_sym, Hp'|apply perm_skip, Hp].
@@ -541,3 +551,242 @@ Section HeapHist.
     - rewrite hstep_peek. reflexivity.
   Qed.
 End HeapHist.
+
+(* ---------- xheap.PriorityQueue[int,int]: gen and iterators (C15) ---------- *)
+Section QueueIter.
+  Variable pless : Z -> Z -> bool.
+
+  Notation qstep := (qstep pless).
+  Notation qinit := (qinit pless).
+  Notation qrun_state := (qrun_state pless).
+  Notation kpl := (kpless pless).
+  Notation kpi := (kp_index Z.eqb).
+
+  Lemma qnew_ok initial :
+    exists q, qnew pless initial = Ok q /\ hgen q = 0.
+  Proof.
+    unfold qnew, pq_new. destruct (pq_filter Z.eqb initial [] []) as [m filtered].
+    destruct (new_spec kpl kpi filtered m) as [c1 [_ [E _]]].
+    eexists. split; [exact E|reflexivity].
+  Qed.
+
+  Lemma qinit_eq initial :
+    exists q, qnew pless initial = Ok q /\ qinit initial = mkQst q [] /\ hgen q = 0.
+  Proof.
+    destruct (qnew_ok initial) as [q [E Hg]]. exists q. unfold Model.qinit. rewrite E. auto.
+  Qed.
+
+  Lemma pq_update_gen k p (q q' : zpq) :
+    pq_update Z.eqb pless k p q = Ok q' -> hgen q' = hgen q + 1.
+  Proof.
+    unfold pq_update. destruct (m_get Z.eqb (hs q) k) as [idx|]; intros E.
+    - apply update_at_gen in E. exact E.
+    - apply push_gen in E. exact E.
+  Qed.
+
+  Lemma pq_pop_gen (q q' : zpq) k :
+    pq_pop Z.eqb 0 0 pless q = Ok (k, q') -> hgen q' = hgen q + 1.
+  Proof.
+    unfold pq_pop. destruct (pop (kpzero 0 0) kpl kpi q) as [[x q1]|c] eqn:E; simpl; intros E'.
+    - injection E' as _ <-. simpl. apply pop_gen in E. exact E.
+    - discriminate.
+  Qed.
+
+  Lemma pq_remove_gen k (q q' : zpq) :
+    pq_remove Z.eqb 0 0 pless k q = Ok q' ->
+    (pq_contains Z.eqb k q = false /\ q' = q) \/
+    (pq_contains Z.eqb k q = true /\ hgen q' = hgen q + 1).
+  Proof.
+    unfold pq_remove, pq_contains. destruct (m_get Z.eqb (hs q) k) as [i|]; intros E.
+    - right. split; [reflexivity|].
+      destruct (remove_at (kpzero 0 0) kpl kpi i q) as [q1|c] eqn:E1; simpl in E; [|discriminate].
+      injection E as <-. simpl. apply remove_at_gen in E1. exact E1.
+    - left. injection E as <-. auto.
+  Qed.
+
+  (* the queue (not the iterators) after a step *)
+  Lemma qstep_qq_gen s o :
+    hgen (qq s) <= hgen (qq (fst (qstep s o))) /\
+    (q_modifies s o = true -> snd (qstep s o) <> OPanic ->
+     hgen (qq (fst (qstep s o))) = hgen (qq s) + 1).
+  Proof.
+    destruct o; cbv beta iota zeta delta [Model.qstep q_modifies].
+    - destruct (pq_update Z.eqb pless k p (qq s)) as [q'|c] eqn:E; simpl.
+      + apply pq_update_gen in E. lia.
+      + split; [lia|]. intros _ H. congruence.
+    - destruct (pq_pop Z.eqb 0 0 pless (qq s)) as [[k q']|c] eqn:E; simpl.
+      + apply pq_pop_gen in E. lia.
+      + split; [lia|]. intros _ H. congruence.
+    - destruct (pq_peek (qq s)); simpl; split; try lia; discriminate.
+    - simpl. split; [lia|discriminate].
+    - destruct (pq_priority Z.eqb 0 k (qq s)); simpl; split; try lia; discriminate.
+    - destruct (pq_remove Z.eqb 0 0 pless k (qq s)) as [q'|c] eqn:E; simpl.
+      + apply pq_remove_gen in E. destruct E as [[Ec ->]|[Ec Eg]]; rewrite Ec.
+        * split; [lia|discriminate].
+        * split; [lia|]. intros _ _. exact Eg.
+      + split; [lia|]. intros _ H. congruence.
+    - simpl. split; [lia|discriminate].
+    - unfold pq_grow, grow. destruct (n <? 0); simpl; split; try lia; discriminate.
+    - simpl. split; [lia|discriminate].
+    - destruct (nth_error (qits s) j); [|simpl; split; [lia|discriminate]].
+      destruct (pq_iter_next (qq s) h). simpl. split; [lia|discriminate].
+    - destruct (pq_iterate_all (qq s)) as [[l|c]|]; simpl; split; try lia; discriminate.
+  Qed.
+
+  Lemma qstep_its_same s o :
+    match o with QIterNew | QIterNext _ => False | _ => True end ->
+    qits (fst (qstep s o)) = qits s.
+  Proof.
+    intros Hk. destruct o; try destruct Hk; simpl.
+    - destruct (pq_update Z.eqb pless k p (qq s)); reflexivity.
+    - destruct (pq_pop Z.eqb 0 0 pless (qq s)) as [[k q']|c]; reflexivity.
+    - destruct (pq_peek (qq s)); reflexivity.
+    - reflexivity.
+    - destruct (pq_priority Z.eqb 0 k (qq s)); reflexivity.
+    - destruct (pq_remove Z.eqb 0 0 pless k (qq s)); reflexivity.
+    - reflexivity.
+    - destruct (pq_grow n (qq s)); reflexivity.
+    - destruct (pq_iterate_all (qq s)) as [[l|c]|]; reflexivity.
+  Qed.
+
+  Lemma pq_iter_next_eq (q : zpq) it :
+    pq_iter_next q it =
+    (match fst (iter_next q it) with
+     | Ok (Some x) => Ok (Some (fst x)) | Ok None => Ok None | Panic c => Panic c end,
+     snd (iter_next q it)).
+  Proof. unfold pq_iter_next. destruct (iter_next q it) as [r it']. reflexivity. Qed.
+
+  Lemma qstep_iter_next s j :
+    qstep s (QIterNext j) =
+    match nth_error (qits s) j with
+    | None => (s, OBad)
+    | Some it => (mkQst (qq s) (upd (qits s) j (snd (iter_next (qq s) it))),
+                  out_of fst (fst (iter_next (qq s) it)))
+    end.
+  Proof.
+    simpl. destruct (nth_error (qits s) j) as [it|]; [|reflexivity].
+    rewrite pq_iter_next_eq. destruct (iter_next (qq s) it) as [[[x|]|c] it']; reflexivity.
+  Qed.
+
+  Definition qgen_inv (s : qst) : Prop :=
+    0 <= hgen (qq s) /\ Forall (fun it => it_gen it <= hgen (qq s)) (qits s).
+
+  Lemma qstep_gen_inv s o : qgen_inv s -> qgen_inv (fst (qstep s o)).
+  Proof.
+    intros [Hg Hits]. pose proof (qstep_qq_gen s o) as [Hle _].
+    assert (Hother : match o with QIterNew | QIterNext _ => False | _ => True end ->
+                     qgen_inv (fst (qstep s o))).
+    { intros Hk. split; [lia|]. rewrite qstep_its_same by exact Hk.
+      eapply Forall_impl; [|exact Hits]. simpl. intros it Hit. lia. }
+    destruct o; try (apply Hother; exact I).
+    - simpl. split; [exact Hg|]. apply Forall_app. split; [exact Hits|].
+      constructor; [simpl; lia|constructor].
+    - rewrite qstep_iter_next. destruct (nth_error (qits s) j) as [it|] eqn:Ej; [|split; assumption].
+      simpl. split; [exact Hg|]. apply Forall_upd; [exact Hits|].
+      apply iter_next_gen_le. rewrite Forall_forall in Hits. apply Hits.
+      eapply nth_error_In; eassumption.
+  Qed.
+
+  Lemma qinit_gen_inv initial : qgen_inv (qinit initial).
+  Proof.
+    destruct (qinit_eq initial) as [q [_ [E Hg]]]. rewrite E. split; simpl; [lia|constructor].
+  Qed.
+
+  Lemma qreach_ind (Pr : qst -> Prop) initial :
+    Pr (qinit initial) -> (forall s o, Pr s -> Pr (fst (qstep s o))) ->
+    forall ops, Pr (qrun_state initial ops).
+  Proof.
+    intros H0 Hstep ops. unfold Model.qrun_state. generalize (qinit initial) H0.
+    induction ops as [|o ops IH]; intros s Hs; simpl; [exact Hs|].
+    apply IH. apply Hstep. exact Hs.
+  Qed.
+
+  Lemma qgen_inv_reach initial ops : qgen_inv (qrun_state initial ops).
+  Proof. apply qreach_ind; [apply qinit_gen_inv|intros s o; apply qstep_gen_inv]. Qed.
+
+  Lemma pq_drain_eq (q : zpq) : forall fuel it,
+      pq_drain fuel q it =
+      match drain fuel q it with
+      | Some (Ok l) => Some (Ok (map fst l))
+      | Some (Panic c) => Some (Panic c)
+      | None => None
+      end.
+  Proof.
+    induction fuel as [|fuel IH]; intros it; [reflexivity|].
+    cbn [pq_drain drain]. rewrite pq_iter_next_eq.
+    destruct (iter_next q it) as [[[x|]|c] it']; cbn [fst snd]; try reflexivity.
+    rewrite IH. destruct (drain fuel q it') as [[l|c]|]; reflexivity.
+  Qed.
+
+  Lemma pq_iterate_all_unchanged (q : zpq) :
+    hgen q <> -1 -> pq_iterate_all q = Some (Ok (map fst (ha q))).
+  Proof.
+    intros Hg. unfold pq_iterate_all. rewrite pq_drain_eq.
+    fold (iterate_all q). rewrite iterate_all_unchanged by exact Hg. reflexivity.
+  Qed.
+
+  Lemma queue_iter_unchanged initial ops :
+    let q := qq (qrun_state initial ops) in pq_iterate_all q = Some (Ok (map fst (ha q))).
+  Proof.
+    intros q. apply pq_iterate_all_unchanged.
+    destruct (qgen_inv_reach initial ops) as [Hg _]. fold q in Hg. lia.
+  Qed.
+
+  Lemma queue_iter_add_remove_panics initial ops o it :
+    let s := qrun_state initial ops in
+    q_modifies s o = true ->
+    snd (qstep s o) <> OPanic ->
+    In it (qits (fst (qstep s o))) -> it_gen it <> -1 ->
+    fst (pq_iter_next (qq (fst (qstep s o))) it) = Panic PModified.
+  Proof.
+    intros s Hmod Hnp Hin Hst.
+    destruct (qgen_inv_reach initial ops) as [Hg Hits]. fold s in Hg, Hits.
+    pose proof (qstep_qq_gen s o) as [_ Hplus]. specialize (Hplus Hmod Hnp).
+    rewrite qstep_its_same in Hin by (destruct o; try exact I; discriminate Hmod).
+    rewrite Forall_forall in Hits. specialize (Hits it Hin). simpl in Hits.
+    rewrite pq_iter_next_eq. simpl.
+    rewrite iter_next_modified; [reflexivity|exact Hst|lia].
+  Qed.
+
+  Definition qghost_inv (s : qst) (gs : list ghost) : Prop :=
+    Forall2 (ginv fst (hgen (qq s))) (qits s) gs.
+
+  Lemma qghost_step_inv s gs o :
+    qgen_inv s -> qghost_inv s gs ->
+    qghost_inv (fst (qstep s o)) (qghost_step pless s gs o).
+  Proof.
+    intros [Hg _] H. unfold qghost_inv in *.
+    pose proof (qstep_qq_gen s o) as [Hle _].
+    assert (Hother : match o with QIterNew | QIterNext _ => False | _ => True end ->
+              Forall2 (ginv fst (hgen (qq (fst (qstep s o))))) (qits (fst (qstep s o)))
+                      (qghost_step pless s gs o)).
+    { intros Hk. rewrite qstep_its_same by exact Hk.
+      replace (qghost_step pless s gs o) with gs by (destruct o; try reflexivity; destruct Hk).
+      eapply Forall2_weaken; [|exact H]. intros it g. apply ginv_mono. exact Hle. }
+    destruct o; try (apply Hother; exact I).
+    - simpl. apply Forall2_snoc; [exact H|apply ginv_new].
+    - unfold qghost_step. rewrite qstep_iter_next.
+      pose proof (Forall2_nth_error _ _ _ j H) as Hj.
+      destruct (nth_error (qits s) j) as [it|] eqn:Ej; destruct (nth_error gs j) as [g|] eqn:Egj;
+        try contradiction; [|exact H].
+      simpl. apply Forall2_upd; [exact H|].
+      apply ginv_next; assumption.
+  Qed.
+
+  Lemma qgrun_inv : forall ops s gs,
+      qgen_inv s -> qghost_inv s gs ->
+      qghost_inv (fst (qgrun pless s gs ops)) (snd (qgrun pless s gs ops)).
+  Proof.
+    induction ops as [|o ops IH]; intros s gs Hs Hgs; simpl; [exact Hgs|].
+    apply IH; [apply qstep_gen_inv; exact Hs|apply qghost_step_inv; assumption].
+  Qed.
+
+  Lemma queue_iter_ghost_ok initial ops :
+    Forall ghost_ok (snd (qgrun pless (qinit initial) [] ops)).
+  Proof.
+    pose proof (qgrun_inv ops (qinit initial) [] (qinit_gen_inv initial)) as H.
+    eapply Forall2_Forall_r; [|apply H].
+    - intros it g. apply ginv_ok.
+    - destruct (qinit_eq initial) as [q [_ [E _]]]. rewrite E. constructor.
+  Qed.
+End QueueIter.
